@@ -50,11 +50,22 @@ type xy struct{ x, y *big.Int }
 
 // curvePointsWithSmallX returns points whose x is below 2^32+977 (so x+p still fits 32 bytes).
 func curvePointsWithSmallX(r *rand.Rand, n int) []xy {
+	// spread over the WHOLE window in which x + p still fits 32 bytes, [1, 2^32 + 977): tiny values, either side of 977 (where the low
+	// word of x + p wraps), the middle, either side of 2^31 and 2^32, and the top of the window (round 10: a canonicity test that
+	// compares the low word on its own is wrong on part of the window only)
+	starts := []int64{1, 960, 977, 0x10000, 0x7ffffff0, 0x80000000, 0xfffffc20, 0xfffffff0, 0x100000000, 0x100000390}
 	var out []xy
-	for x := int64(1); len(out) < n; x++ {
-		xv := big.NewInt(x + int64(r.Intn(3)))
-		if y := sqrtP(yyOf(xv)); y != nil {
-			out = append(out, xy{xv, y})
+	for i := 0; len(out) < n; i++ {
+		x := starts[i%len(starts)] + int64(i/len(starts))*7 + int64(r.Intn(3))
+		for ; ; x++ {
+			xv := big.NewInt(x)
+			if x >= 0x1000003d1 {
+				break
+			}
+			if y := sqrtP(yyOf(xv)); y != nil {
+				out = append(out, xy{xv, y})
+				break
+			}
 		}
 	}
 	return out
@@ -173,7 +184,7 @@ func driveSec1(c *ctx) {
 	}
 
 	var pts []xy
-	smallX := curvePointsWithSmallX(r, c.scale(6, 40))
+	smallX := curvePointsWithSmallX(r, c.scale(10, 40))
 	smallY := curvePointsWithSmallY(r, c.scale(4, 20))
 	pts = append(pts, smallX...)
 	pts = append(pts, smallY...)
